@@ -33,6 +33,32 @@ def translate():
     return gen_ident()
 
 
+# the validators' verdicts must not depend on `assert` statements: an application run with `python -O` compiles them out
+O_SCRIPT = r"""
+import sys, json
+import ofxtools.utils as U
+bad = []
+for fn, arg, want in json.load(sys.stdin):
+    try:
+        got = getattr(U, fn)(arg)
+    except Exception as e:
+        got = "raised " + type(e).__name__
+    if (got is True) != want:
+        bad.append([fn, arg, want, repr(got)])
+print(json.dumps(bad))
+"""
+
+
+def optimized_probe(vcases):
+    """the validate_* clauses of the property in a child interpreter started with -O: [(fn, arg, expected verdict)] -> mismatches"""
+    import subprocess, json, os
+    r = subprocess.run([C.PY, "-O", "-c", O_SCRIPT], input=json.dumps(vcases), env=dict(os.environ, PYTHONPATH=C.REPO, PYTHONHASHSEED="0"),
+                       stdout=subprocess.PIPE, stderr=subprocess.PIPE, text=True, timeout=300)
+    if r.returncode:
+        raise RuntimeError("python -O probe failed: %s" % r.stderr[-400:])
+    return json.loads(r.stdout.strip().splitlines()[-1])
+
+
 # ---- independent reference implementation of the published algorithms (property oracle) ----
 def _v36(c):
     if c in string.digits: return ord(c) - 48
@@ -271,6 +297,24 @@ def run(rep, tier, rng):
             out = call(U.cusip2isin, x)
             if out[0] == "ok":
                 fail("cusip2isin:accepts-malformed", "cusip2isin(%r) -> %r: a malformed CUSIP is converted" % (x, out), fn="cusip2isin", args=[x, None], observed=out)
+    # ---------------- the same verdicts with assertions compiled out (python -O): valid ids pass, a changed check character, a wrong length and an
+    #                  unknown prefix never validate -- whatever the interpreter's flags (own PRNG-free list built from the reference implementation)
+    vcases = []
+    for name, fn, ident in good_ids[:200]:
+        vcases.append((name, ident, True))
+        w = ident[-1]
+        vcases += [(name, ident[:-1] + ch, False) for ch in string.digits + "A" if ch != w]
+        vcases += [(name, ident[:-1], False), (name, ident + "0", False), (name, ident[1:], False), (name, ident + "\n", False)]
+    unknown = [a + b for a in string.ascii_uppercase for b in string.ascii_uppercase if a + b not in agencies and a + b not in STATED_AGENCIES]
+    for n, pre in enumerate(unknown):
+        nsin = ("%09d" % (n * 7919 % 10 ** 9)) if n % 2 else "B0YBKJ7A1"
+        vcases.append(("validate_isin", pre + nsin + ref_isin(pre + nsin), False))
+    for key_fn, arg, want, got in optimized_probe(vcases):
+        kind = "valid-id-fails" if want else ("unknown-prefix-validates" if key_fn == "validate_isin" and arg[:2] in unknown else "corrupted-id-validates")
+        fail("%s:python-O:%s" % (key_fn, kind), "under `python -O` (assert statements compiled out) %s(%r) -> %s, expected %s" % (key_fn, arg, got, want),
+             fn=key_fn, args=[arg], optimized=True)
+    rep.extra["python_O_probes"] = len(vcases)
+    rep.count(("python-O-probes", len(vcases)), nontrivial=True, kind="python-O-probes")
     rep.extra["edge_probes"] = n_edge
     rep.count(("edge-probes", n_edge), nontrivial=True, kind="edge-probes")
 
@@ -315,6 +359,12 @@ def replay(obj):
     C.use_repo()
     import ofxtools.utils as U
     r = obj["replay"]
+    if r.get("optimized"):
+        bad = optimized_probe([(r["fn"], r["args"][0], False), (r["fn"], r["args"][0], True)])
+        verdict = [b for b in bad if b[2] is False] and "True" or "not True"
+        print("replay under python -O: %s(%r) is %s" % (r["fn"], r["args"][0], verdict))
+        print("(what was expected is in the 'what' field)")
+        return 1
     out = call(getattr(U, r["fn"]), *r["args"])
     print("replay %s%r -> %r (expected %r)" % (r["fn"], tuple(r["args"]), out, r.get("expected")))
     bad = ("expected" in r and out != ("ok", r["expected"])) or ("expected" not in r and out[0] != "ok")
